@@ -11,7 +11,7 @@ from __future__ import annotations
 import re
 from typing import Any, List
 
-from .common import call, same, is_symbolic, PathAbort
+from .common import call, same, is_symbolic, PathAbort, replay_tiers
 
 PROP = "C20"
 
@@ -159,7 +159,7 @@ OUTSIDE = ["shapes beyond the bound", "custom_labels, terminal labels", "renderi
 
 def replay(obligation: str, witness):
     from sx.concrete import run_concrete
-    for tier in ("thorough", "quick"):
+    for tier in replay_tiers():
         for ob in obligations(tier):
             if ob.name == obligation:
                 reproduced, msg, _ = run_concrete(ob.harness, witness)
